@@ -81,6 +81,23 @@ def rename_ids(I, tag):
     return J
 
 
+def numeric_sibling(I, k):
+    """The same instance (same ids, times, locations) with different numbers only: the demand is
+    changed so that the required formation sizes differ. An answer computed for the sibling cannot
+    pass for this request."""
+    J = json.loads(json.dumps(I))
+    caps = {t["id"]: t["cap"] for t in J["types"]}
+    for i, t in enumerate(J["trips"]):
+        c = caps[t["ty"]]
+        t["pax"] = c * (1 + (i + k) % 3) - (1 if (i + k) % 2 else 0)
+        t["seated"] = min(t["seated"], t["pax"])
+    for d in J["_departures"]:
+        for sg in d["segs"]:
+            tr = [t for t in J["trips"] if t["id"] == sg["id"]][0]
+            sg["pax"], sg["seated"] = tr["pax"], tr["seated"]
+    return J
+
+
 def invalid_body(I, variant):
     inp = gen.render(I)
     v = variant % 6
